@@ -39,6 +39,25 @@ chk("C16", "latx", "exploration",
     "Cell boundaries may lie within 4 ulp(L) of k L/n; grids outside the lattice are not covered.",
     "DESIGN.md §5/C16")
 
+chk("C05", "latx", "exploration",
+    "exhaustive enumeration of all integer derivative tables (values -3..3, sizes 2..4/6, all orders, all active "
+    "units) x scripted uniform draws on an exact midpoint grid and at the end points, on the three real lifting "
+    "classes; flow balance checked in exact integers",
+    "The uniform draws are owned through the random seam, so the selection as a function of the draw is enumerated "
+    "rather than sampled; balance sum_a q_a P(k|a) = |q_k| holds as an identity of integer counts. Float tables via "
+    "threshold bisection on the real code.",
+    "Tables outside the alphabet are not covered; random.uniform is the only draw (proved per execution).",
+    "DESIGN.md §5/C05")
+
+chk("C18", "latx", "exploration",
+    "exhaustive enumeration of rate vectors x both random draws (table row, exact grid of the second draw, end "
+    "points) on the real Walker, and of (cell grid, active cell, direction, charge sign, walker answer) on the real "
+    "cell-veto handlers with an injective stub estimator",
+    "Probabilities are exact integer counts; target cell and confirmation bound are compared with index arithmetic "
+    "modulo n and the bound the stub estimator produced for that offset (threshold located by bisection).",
+    "Estimator replaced by a stub (the handlers only consume its numbers); grids and vectors outside the lattice are "
+    "not covered.", "DESIGN.md §5/C18")
+
 ENGINES = [
     {"name": "latx", "path": "jfv/par.py", "serves_properties": ["C14", "C15", "C16", "C05", "C18", "C02", "C03",
                                                                     "C04", "C10"],
